@@ -397,7 +397,11 @@ func (w *walker) take(ei int) int {
 				if e.From != e.To || (e.Res != "null" && e.Res != "\"ok\"" && e.Res != "\"u\"") {
 					w.rep.Nontrivial++
 				}
-				if len(w.rep.Samples) < 3 && len(w.path) >= 3 {
+				need := 3 // (a sample is a tour of some length; graphs explored to depth 2 have none of length 3)
+				if w.o.MaxTour > 0 && w.o.MaxTour < need {
+					need = w.o.MaxTour
+				}
+				if len(w.rep.Samples) < 3 && len(w.path) >= need {
 					w.rep.Samples = append(w.rep.Samples, append([]json.RawMessage{}, w.path...))
 				}
 			}
